@@ -15,7 +15,9 @@ DRIVER = "Driver/C09.lean"
 OBLIGATIONS = ["NiftyVerif.C09." + t for t in (
     "dft_orthogonal", "fft_zero_mode_is_integral", "fft_modes_consistent", "hartley_symmetric",
     "hartley_is_matrix", "hartley_involutive_up_to_n", "hartley3_involutive_up_to_n",
-    "hartley_modes_consistent", "hartley_complex_split", "smoothing_sigma0_id", "rg_dvol_product")]
+    "hartley_modes_consistent", "hartley_complex_split", "smoothing_sigma0_id", "rg_dvol_product",
+    "smoothing_is_fourier_convolution", "subspace_transform_onAxis", "subspace_hartley_onAxis",
+    "sht_adjoint", "sht_normalisation")]
 RULE = ("operator cases: product domains of 1-3 spaces, transformed RGSpace of 1-3 dims (axis lengths 1..6), "
         "position/harmonic domain, default or explicit codomain, FFTOperator/HartleyOperator (4 modes) and "
         "HarmonicTransformOperator (2 modes), both hartley conventions, real/complex integer input (random + basis "
@@ -55,9 +57,11 @@ def _build_op(case):
         return None, U.err_kind(e)
 
 
-def _field(dom, vals, cplx):
+def _field(dom, vals, cplx, single=False):
     import nifty.cl as ift
     a = np.array([complex(r, i) for r, i in vals]) if cplx else np.array([float(r) for r, _ in vals])
+    if single:
+        a = a.astype(np.complex64 if cplx else np.float32)
     return ift.Field(dom, a.reshape(dom.shape))
 
 
@@ -72,7 +76,7 @@ def _apply_real(case):
             if mode not in MODES:
                 op._check_mode(mode)
             dom = op._dom(mode)
-            x = _field(dom, case["x"], case["cplx"])
+            x = _field(dom, case["x"], case["cplx"], case.get("single", False))
             return op.apply(x, mode).asnumpy()
         except Exception as e:
             return U.err_kind(e)
@@ -116,11 +120,13 @@ def _is_exact(case):
 # oracle: the property on the real code only
 # ======================================================================================================
 
-def _rand_field(rng, dom, cplx):
+def _rand_field(rng, dom, cplx, single=False):
     import nifty.cl as ift
     a = rng.integers(-9, 10, size=dom.shape).astype(float)
     if cplx:
         a = a + 1j * rng.integers(-9, 10, size=dom.shape)
+    if single:
+        a = a.astype(np.complex64 if cplx else np.float32)
     return ift.Field(dom, a)
 
 
@@ -130,15 +136,22 @@ def _oracle_op(case):
     with U.hartley_convention(case["conv"]):
         op, err = _build_op(case)
         if err:
-            return None          # constructor rejection: nothing to state (compared in the correspondence)
+            if case.get("malformed"):
+                return None      # expected rejection (compared in the correspondence)
+            return (f"{case['kind']}: constructing the operator on a valid domain/codomain raises {err['error']}",
+                    dict(sig, kind="constructor-exception", error=err["error"]))
         space = case["space"]
         rng = np.random.default_rng(case.get("oseed", 0))
         caps = [m for m in MODES if op.capability & m]
-        tol = 1e-9
+        single = bool(case.get("single", False))
+        tol = 2e-4 if single else 1e-9
         try:
-            for cplx in ((True,) if case["kind"] == "fft" else (False, True)):
-                x = _rand_field(rng, op.domain, cplx)
-                y = _rand_field(rng, op.target, cplx)
+            for cplx in ((False, True) if case["kind"] == "fft" else (False, True)):
+                x = _rand_field(rng, op.domain, cplx, single)
+                y = _rand_field(rng, op.target, cplx, single)
+                if single and op.apply(x, 1).asnumpy().dtype not in (np.float32, np.complex64):
+                    return (f"{case['kind']}: single-precision input gives {op.apply(x, 1).asnumpy().dtype} output",
+                            dict(sig, kind="dtype"))
                 Tx = op.apply(x, 1)
                 Ay = op.apply(y, 2)
                 # <y, T x> = <T^H y, x>
@@ -199,6 +212,12 @@ def _oracle_op(case):
                     else:
                         if np.iscomplexobj(Tx.asnumpy()):
                             return ("hartley: real input gives complex output", dict(sig, kind="hartley-real"))
+                if case["kind"] == "fft" and not cplx:
+                    # real input = complex input with zero imaginary part
+                    r2 = op.apply(x + 0j * x, 1)
+                    e = float(np.max(np.abs((r2 - Tx).asnumpy())))
+                    if e > tol * (1 + float(np.max(np.abs(Tx.asnumpy())))):
+                        return ("fft: real input is not transformed like the same complex input", dict(sig, kind="fft-real"))
         except Exception as e:
             return (f"{case['kind']}: {type(e).__name__} on a valid operator/input: {e}",
                     dict(sig, kind="exception", error=type(e).__name__))
@@ -225,6 +244,8 @@ def _backend_array(case):
     a = np.array([complex(r, i) for r, i in case["x"]]).reshape(case["shape"])
     if not case["cplx"]:
         a = a.real.copy()
+    if case.get("single"):
+        a = a.astype(np.complex64 if case["cplx"] else np.float32)
     return a
 
 
@@ -250,7 +271,8 @@ def _oracle_backend(case):
                             f"{names[j]} -> {v if isinstance(v, dict) else 'ok'}",
                             dict(sig, kind="backend-error", pair=[names[i], names[j]]))
                 continue
-            ok, err = U.close(u, v, scale=float(np.max(np.abs(u))) + float(np.max(np.abs(v))))
+            ok, err = U.close(u, v, scale=float(np.max(np.abs(u))) + float(np.max(np.abs(v))),
+                              rtol=2e-5 if case.get("single") else U.RTOL)
             if not ok:
                 return (f"{case['fn']} ({case['conv']}): backends {names[i]} and {names[j]} disagree (rel err {err:.3g})",
                         dict(sig, kind="backend-mismatch", pair=[names[i], names[j]]))
@@ -262,6 +284,43 @@ def _sht_op(case):
     dom = U.mk_domain(case["spaces"])
     tgt = U.mk_space(case["tgt"]) if case.get("tgt") else None
     return ift.SHTOperator(dom, target=tgt, space=case["space"])
+
+
+def _sht_angles(op, space):
+    import nifty.cl as ift
+    px = op.target[space]
+    if isinstance(px, ift.GLSpace):
+        nodes = np.polynomial.legendre.leggauss(px.nlat)[0]
+        th = np.arccos(nodes[::-1])             # north to south
+        return np.repeat(th, px.nlon), np.tile(2 * np.pi * np.arange(px.nlon) / px.nlon, px.nlat)
+    import ducc0
+    ang = ducc0.healpix.Healpix_Base(px.nside, "RING").pix2ang(np.arange(px.size))
+    return ang[:, 0], ang[:, 1]
+
+
+def _sht_model_lines(case, rng):
+    """driver lines for `_slice_h2p` / `_slice_p2h` with scipy's Y_lm values shipped exactly (single-space cases)"""
+    from scipy.special import sph_harm_y
+    if len(case["spaces"]) != 1:
+        return None
+    try:
+        op = _sht_op(case)
+    except Exception:
+        return None
+    lm = op.domain[0]
+    theta, phi = _sht_angles(op, 0)
+    if theta.size > 100:
+        return None
+    ks = [(l, 0) for l in range(lm.lmax + 1)] + [(l, m) for m in range(1, lm.mmax + 1) for l in range(m, lm.lmax + 1)]
+    Y = [sph_harm_y(l, m, theta, phi) for l, m in ks]
+    base = dict(op="sht", L=lm.lmax + 1, M=len(ks) - lm.lmax - 1, npix=int(theta.size),
+                yre=[[U.frac_str(float(v)) for v in y.real] for y in Y],
+                yim=[[U.frac_str(float(v)) for v in y.imag] for y in Y],
+                r2=U.frac_str(float(np.sqrt(2.0))), rh=U.frac_str(float(np.sqrt(0.5))),
+                c=U.frac_str(float(1.0 / np.sqrt(4 * np.pi))))
+    xh = [rng.randint(-9, 9) for _ in range(lm.size)]
+    xp = [rng.randint(-9, 9) for _ in range(int(theta.size))]
+    return op, [dict(base, dir="h2p", x=xh), dict(base, dir="p2h", x=xp)], (xh, xp)
 
 
 def _sht_reference(op, space):
@@ -401,15 +460,15 @@ def _dist(rng, exact):
     return rng.choice([0.1, 0.3, 0.7, 1.0, 1.3, 2.5, 0.05, 3.0]) * rng.choice([1.0, 1.0, 0.37, 1.9])
 
 
-def _gen_rg(rng, exact, maxcells):
-    for _ in range(50):
+def _gen_rg(rng, exact, maxcells, shape=None):
+    for _ in range(50 if shape is None else 0):
         nd = rng.choice([1, 1, 2, 2, 3])
         lens = (1, 2, 4) if exact else (1, 2, 3, 4, 5, 6)
         shape = [rng.choice(lens) for _ in range(nd)]
         if 1 < int(np.prod(shape)) <= maxcells or (rng.random() < 0.05 and int(np.prod(shape)) == 1):
             break
     else:
-        shape = [2]
+        shape = list(shape) if shape is not None else [2]
     style = rng.random()
     if style < 0.15:
         dist = None
@@ -427,11 +486,11 @@ def _gen_other(rng, exact):
     return dict(kind="rg", shape=[rng.choice([2, 3])], dist=[_dist(rng, exact)], harmonic=rng.random() < 0.3)
 
 
-def _gen_spaces(rng, exact, maxcells=30, maxtotal=60, k=None, space=None):
+def _gen_spaces(rng, exact, maxcells=30, maxtotal=60, k=None, space=None, shape=None):
     for _ in range(200):
         kk = k if k is not None else rng.choice([1, 1, 2, 2, 3])
         sp = space if space is not None else rng.randrange(kk)
-        spaces = [(_gen_rg(rng, exact, maxcells) if i == sp else _gen_other(rng, exact)) for i in range(kk)]
+        spaces = [(_gen_rg(rng, exact, maxcells, shape) if i == sp else _gen_other(rng, exact)) for i in range(kk)]
         tot = 1
         for d in spaces:
             tot *= int(np.prod(d["shape"]))
@@ -440,7 +499,10 @@ def _gen_spaces(rng, exact, maxcells=30, maxtotal=60, k=None, space=None):
     return [dict(kind="rg", shape=[4], dist=[0.5], harmonic=False)], 0
 
 
-SWEEP = [(kind, k, sp) for kind in ("fft", "hartley", "htop") for k in (1, 2, 3) for sp in range(k)]
+SWEEP = [(kind, k, sp, None) for kind in ("fft", "hartley", "htop") for k in (1, 2, 3) for sp in range(k)]
+# unit axes (length-1 axes broadcast trivially; the volume factor must still be applied)
+SWEEP += [("fft", 1, 0, [1]), ("hartley", 2, 1, [1, 1]), ("hartley", 1, 0, [1, 3]), ("fft", 2, 0, [4, 1]),
+          ("htop", 2, 1, [1]), ("hartley", 1, 0, [2, 1, 1])]
 
 
 def _gen_x(rng, size, cplx, basis):
@@ -462,7 +524,7 @@ def _gen_op_cases(rng, n_cfg, exact_share, sweeps=0):
             kind = rng.choice(["fft", "hartley", "hartley", "htop"])
         else:
             kind = f[0]
-            spaces, space = _gen_spaces(rng, exact, maxcells=16, maxtotal=40, k=f[1], space=f[2])
+            spaces, space = _gen_spaces(rng, exact, maxcells=16, maxtotal=40, k=f[1], space=f[2], shape=f[3])
         if kind == "htop":
             spaces[space]["harmonic"] = True if rng.random() < 0.93 else spaces[space]["harmonic"]
         tgt = None
@@ -475,6 +537,7 @@ def _gen_op_cases(rng, n_cfg, exact_share, sweeps=0):
         size = 1
         for d in spaces:
             size *= int(np.prod(d["shape"]))
+        single = rng.random() < 0.25
         for conv in U.CONVS if kind != "fft" else (rng.choice(U.CONVS),):
             modes = MODES if kind != "htop" else (1, 2)
             for mode in modes:
@@ -482,7 +545,8 @@ def _gen_op_cases(rng, n_cfg, exact_share, sweeps=0):
                     cplx = (rng.random() < 0.75) if kind == "fft" else (rng.random() < 0.4)
                     cases.append(dict(t="op", kind=kind, spaces=spaces, space=space, tgt=tgt, mode=mode, conv=conv,
                                       cplx=cplx, x=_gen_x(rng, size, cplx, basis), oseed=rng.randrange(1 << 30),
-                                      cfg=c))
+                                      cfg=c, single=single,
+                                      malformed=(kind == "htop" and not spaces[space]["harmonic"])))
     return cases
 
 
@@ -491,7 +555,7 @@ def _gen_malformed(rng):
     rgh = dict(kind="rg", shape=[4], dist=[0.5], harmonic=True)
     un = dict(kind="un", shape=[3])
     x4 = [[1, 0], [2, 0], [3, 0], [4, 0]]
-    base = dict(t="op", conv=U.CONVS[0], cplx=False, oseed=1, cfg=-1)
+    base = dict(t="op", conv=U.CONVS[0], cplx=False, oseed=1, cfg=-1, malformed=True)
     out = []
     for kind in ("fft", "hartley"):
         out.append(dict(base, kind=kind, spaces=[un], space=0, tgt=None, mode=1, x=[[1, 0]] * 3))        # not an RGSpace
@@ -523,8 +587,9 @@ def _gen_backend_cases(rng, n):
         fn = rng.choice(["fftn", "ifftn", "hartley", "hartley"])
         cplx = fn != "hartley" and rng.random() < 0.7
         size = int(np.prod(shape))
+        single = rng.random() < 0.25
         for conv in (U.CONVS if fn == "hartley" else (U.CONVS[0],)):
-            cases.append(dict(t="backend", fn=fn, shape=shape, axes=axes, conv=conv, cplx=cplx,
+            cases.append(dict(t="backend", fn=fn, shape=shape, axes=axes, conv=conv, cplx=cplx, single=single,
                               x=_gen_x(rng, size, cplx, rng.random() < 0.3)))
     return cases
 
@@ -577,7 +642,7 @@ def _compare_arrays(ctx, case, impl, mout, exact, note, nontrivial):
                            note=note + " [class E, exact]", nontrivial=nontrivial)
     ctx.stat("class:T")
     mv = np.array(U.eval_entries(mout, False))
-    ok, err = U.close(impl, mv)
+    ok, err = U.close(impl, mv, rtol=2e-5 if case.get("single") else U.RTOL)
     ctx.case(case, nontrivial)
     if not ok:
         ctx.disagree(case, dict(values=[str(v) for v in np.asarray(impl).reshape(-1)[:8]], relerr=err),
@@ -639,10 +704,50 @@ def run(ctx):
         m = _backend_model_case(c)
         if m is not None:
             lines.append(m); owners.append(("be", c))
-    sm_geo = []
+    # smoothing: geometry + operator lines (kernel from the harness' own k² formula; compared with the model's below)
+    sm_own, err_cases = [], []
     for c in sm_cases:
         g = U.model_geometry(c["spaces"], c["space"])
         lines.append(dict(op="geom", n=g["n"], rdist=g["rdist"])); owners.append(("geom", c))
+        try:
+            op, dom = _smooth_op(c)
+        except Exception as e:
+            sm_own.append((c, None, U.err_kind(e), None, None))
+            continue
+        sp = dom[c["space"]]
+        ksq = np.zeros(sp.shape)
+        for ax, (n, rd) in enumerate(zip(sp.shape, sp._rdistances)):
+            j = np.arange(n)
+            kk = (np.minimum(j, n - j) * (1.0 / (n * rd))) ** 2
+            ksq = ksq + kk.reshape([-1 if b == ax else 1 for b in range(len(sp.shape))])
+        ksq = ksq.reshape(-1)
+        kern = np.exp(-2 * np.pi ** 2 * c["sigma"] ** 2 * ksq)
+        xs = [rng.randint(-9, 9) for _ in range(dom.size)]
+        lines.append(dict(op="smooth", pre=g["pre"], n=g["n"], post=g["post"], rdist=g["rdist"], dh=g["dh"], nc=True,
+                          sigma="zero" if c["sigma"] == 0 else "pos", spacekind=g["spacekind"],
+                          kern=[U.frac_str(float(k)) for k in kern], x=xs))
+        owners.append(("sm", c))
+        sm_own.append((c, op, dom, xs, ksq))
+    for spaces, sigma in (([dict(kind="rg", shape=[4], dist=[0.5], harmonic=False)], -1.0),
+                          ([dict(kind="rg", shape=[4], dist=[0.5], harmonic=True)], 0.5),
+                          ([dict(kind="rg", shape=[4], dist=[0.5], harmonic=True)], 0.0),
+                          ([dict(kind="un", shape=[3])], 0.5)):
+        c = dict(t="smooth", spaces=spaces, space=0, sigma=sigma)
+        g = U.model_geometry(spaces, 0)
+        ncell = int(np.prod(g["n"]))
+        lines.append(dict(op="smooth", pre=1, n=g["n"], post=1, rdist=g["rdist"], dh=g["dh"], nc=True,
+                          sigma="neg" if sigma < 0 else ("zero" if sigma == 0 else "pos"), spacekind=g["spacekind"],
+                          kern=["1"] * ncell, x=[1] * ncell))
+        owners.append(("smerr", c))
+        err_cases.append(c)
+    sht_tie = []
+    for c in sht_cases:
+        r = _sht_model_lines(c, rng)
+        if r is not None:
+            op_s, ls, xs_s = r
+            for l in ls:
+                lines.append(l); owners.append(("sht-" + l["dir"], c))
+            sht_tie.append((c, op_s, xs_s))
     _t("gen+real-setup")
     outs = ctx.model(DRIVER, lines)
     _t(f"model batch 1 ({len(lines)} lines)")
@@ -661,6 +766,9 @@ def run(ctx):
         ctx.stat(f"kind:{c['kind']}"); ctx.stat(f"mode:{c['mode']}"); ctx.stat(f"ndim:{len(sp['shape'])}")
         ctx.stat(f"nspaces:{len(c['spaces'])}"); ctx.stat("dom:harmonic" if sp.get("harmonic") else "dom:position")
         ctx.stat("conv:" + c["conv"][:5]); ctx.stat("input:complex" if c["cplx"] else "input:real")
+        ctx.stat("dtype:single" if c.get("single") else "dtype:double")
+        if 1 in sp["shape"]:
+            ctx.stat("unit-axis")
         if c.get("tgt"):
             ctx.stat("target:explicit")
         _compare_arrays(ctx, _strip(c), impl, mout, exact,
@@ -704,7 +812,7 @@ def run(ctx):
                     if isinstance(v, dict):
                         ctx.disagree(cc, v, {"ok": True}, f"{name} {c['fn']} raised on valid input")
                     else:
-                        ok, err = U.close(v, ref)
+                        ok, err = U.close(v, ref, rtol=2e-5 if c.get("single") else U.RTOL)
                         if not ok:
                             ctx.disagree(cc, dict(relerr=err), {"ok": True}, f"{name} {c['fn']} vs explicit O(n^2) sums [class T]")
         r = oracle(c)
@@ -721,51 +829,30 @@ def run(ctx):
         if r:
             ctx.counterexample(c, *r)
 
+    import nifty.cl as ift
+    for c, op_s, (xh, xp) in sht_tie:
+        for d, xv, mode, dom in (("h2p", xh, 1, op_s.domain), ("p2h", xp, 2, op_s.target)):
+            mo = by_case[("sht-" + d, id(c))]
+            cc = dict(c, dir=d, x=xv)
+            ctx.stat("sht-model:" + d)
+            try:
+                v = op_s.apply(ift.Field(dom, np.array(xv, dtype=float)), mode).asnumpy()
+            except Exception as e:
+                v = U.err_kind(e)
+            ctx.case(cc, True)
+            if isinstance(v, dict) or "error" in mo:
+                ctx.disagree(cc, v if isinstance(v, dict) else {"ok": True}, mo, "SHTOperator vs Model sliceH2P/sliceP2H")
+                continue
+            mv = np.array([float(Fraction(t)) for t in mo["y"]])
+            ok, err = U.close(v, mv)
+            if not ok:
+                ctx.disagree(cc, dict(relerr=err, values=[str(t) for t in v[:6]]), dict(values=[str(t) for t in mv[:6]]),
+                             "SHTOperator vs Model sliceH2P/sliceP2H with scipy Y_lm [class T]")
     _t("sht")
-    # ---- smoothing: kernel from the model's exact k², operator through the model (class F/T) ------------
-    sm_lines, sm_own = [], []
-    for c in sm_cases:
-        ctx.stat("smooth:sigma0" if c["sigma"] == 0 else "smooth:sigma>0")
-        geo = by_case[("geom", id(c))]
-        g = U.model_geometry(c["spaces"], c["space"])
-        try:
-            op, dom = _smooth_op(c)
-        except Exception as e:
-            ctx.compare(_strip(c), U.err_kind(e), {"ok": True}, note="HarmonicSmoothingOperator construction")
-            continue
-        # class T on the kernel: code's kernel vs exp(-2 pi² sigma² k²) with the model's exact k²
-        sp = dom[c["space"]]
-        ksq = np.array([float(Fraction(s)) for s in geo["ksq"]])
-        kern = np.exp(-2 * np.pi ** 2 * c["sigma"] ** 2 * ksq)
-        # volume check: model dvol vs code's scalar_dvol of the space and its partner
-        ok1, _ = U.close([sp.scalar_dvol, sp.get_default_codomain().scalar_dvol],
-                         [float(Fraction(geo["dvol_pos"])), float(Fraction(geo["dvol_harm"]))], scale=None)
-        kcode = sp.get_default_codomain().get_k_length_array().asnumpy().reshape(-1) ** 2
-        ok2, _ = U.close(kcode, ksq, scale=float(np.max(ksq)) + 1.0)
-        ctx.case(dict(c, part="geometry"), True)
-        if not (ok1 and ok2):
-            ctx.disagree(dict(c, part="geometry"), dict(dvol=[sp.scalar_dvol, sp.get_default_codomain().scalar_dvol]),
-                         dict(dvol=[geo["dvol_pos"], geo["dvol_harm"]]), "RGSpace dvol / k-lengths vs Model rgDvol/kAxisSq")
-        xs = [rng.randint(-9, 9) for _ in range(dom.size)]
-        sgn = "zero" if c["sigma"] == 0 else "pos"
-        sm_lines.append(dict(op="smooth", pre=g["pre"], n=g["n"], post=g["post"], rdist=g["rdist"], dh=g["dh"], nc=True,
-                             sigma=sgn, spacekind=g["spacekind"], kern=[U.frac_str(float(k)) for k in kern], x=xs))
-        sm_own.append((c, op, dom, xs))
-    # error stream of the smoothing constructor (same batch)
-    err_cases = []
-    for spaces, sigma in (([dict(kind="rg", shape=[4], dist=[0.5], harmonic=False)], -1.0),
-                          ([dict(kind="rg", shape=[4], dist=[0.5], harmonic=True)], 0.5),
-                          ([dict(kind="rg", shape=[4], dist=[0.5], harmonic=True)], 0.0),
-                          ([dict(kind="un", shape=[3])], 0.5)):
-        c = dict(t="smooth", spaces=spaces, space=0, sigma=sigma)
-        g = U.model_geometry(spaces, 0)
-        ncell = int(np.prod(g["n"]))
-        sm_lines.append(dict(op="smooth", pre=1, n=g["n"], post=1, rdist=g["rdist"], dh=g["dh"], nc=True,
-                             sigma="neg" if sigma < 0 else ("zero" if sigma == 0 else "pos"), spacekind=g["spacekind"],
-                             kern=["1"] * ncell, x=[1] * ncell))
-        err_cases.append(c)
-    sm_out = ctx.model(DRIVER, sm_lines) if sm_lines else []
-    for c, mout in zip(err_cases, sm_out[len(sm_own):]):
+    # ---- smoothing: geometry (model k², dvol vs code), operator through the model (class F/T) -----------
+    import nifty.cl as ift
+    for c in err_cases:
+        mout = by_case[("smerr", id(c))]
         try:
             _smooth_op(c)
             impl = {"ok": True}
@@ -774,9 +861,24 @@ def run(ctx):
         ctx.stat("smooth-error:" + impl.get("error", "none"))
         ctx.compare(c, impl, {"error": mout["error"]} if "error" in mout else {"ok": True},
                     note="HarmonicSmoothingOperator constructor checks vs driver")
-    _t("smoothing model batch")
-    import nifty.cl as ift
-    for (c, op, dom, xs), mout in zip(sm_own, sm_out):
+    for c, op, dom, xs, ksq in sm_own:
+        ctx.stat("smooth:sigma0" if c["sigma"] == 0 else "smooth:sigma>0")
+        if op is None:
+            ctx.compare(_strip(c), dom, {"ok": True}, note="HarmonicSmoothingOperator construction on a valid domain")
+            continue
+        geo = by_case[("geom", id(c))]
+        mout = by_case[("sm", id(c))]
+        sp = dom[c["space"]]
+        mksq = np.array([float(Fraction(t)) for t in geo["ksq"]])
+        ok0, _ = U.close(ksq, mksq, scale=float(np.max(mksq)) + 1.0, rtol=1e-12)
+        ok1, _ = U.close([sp.scalar_dvol, sp.get_default_codomain().scalar_dvol],
+                         [float(Fraction(geo["dvol_pos"])), float(Fraction(geo["dvol_harm"]))], scale=None)
+        kcode = sp.get_default_codomain().get_k_length_array().asnumpy().reshape(-1) ** 2
+        ok2, _ = U.close(kcode, mksq, scale=float(np.max(mksq)) + 1.0)
+        ctx.case(dict(c, part="geometry"), True)
+        if not (ok0 and ok1 and ok2):
+            ctx.disagree(dict(c, part="geometry"), dict(dvol=[sp.scalar_dvol, sp.get_default_codomain().scalar_dvol]),
+                         dict(dvol=[geo["dvol_pos"], geo["dvol_harm"]]), "RGSpace dvol / k-lengths vs Model rgDvol/kSq")
         try:
             v = op(ift.Field(dom, np.array(xs, dtype=float).reshape(dom.shape))).asnumpy()
         except Exception as e:
@@ -791,6 +893,7 @@ def run(ctx):
         r = oracle(c)
         if r:
             ctx.counterexample(_strip(c), *r)
+    _t("smoothing")
 
 
 def _strip(c):
